@@ -942,7 +942,8 @@ theorem proofChecks_tot (h : WfSt B s) (hB : B + s.lastNBlocks ≤ U64_MAX)
     · exact Tot.pure trivial
     · split
       · rename_i hs0
-        obtain ⟨sh, hsh⟩ := getElem?_isSome (l := m.headers) (i := r) (by omega)
+        obtain ⟨sh, hsh⟩ := getElem?_isSome (l := m.headers)
+          (i := tauStartIdx m.headers r (r + sc + ln - 1)) (tauStartIdx_lt (by omega) (by omega))
         obtain ⟨eh, heh⟩ := getElem?_isSome (l := m.headers) (i := r + sc + ln - 1) (by omega)
         simp only [hsh, heh]
         split <;> exact Tot.pure trivial
